@@ -148,6 +148,18 @@ func (iv *c13ivals) at(v ssa.Value, b, via *ssa.BasicBlock) iset {
 			}
 		}
 	}
+	r := iv.atFlow(v, b, via)
+	if ex, ok := v.(*ssa.Extract); ok && iv.depth < 6 {
+		// one result of a helper with several: what is known here about its other results (`err == nil`, `ok`) selects
+		// the returns it can have come from
+		iv.depth++
+		r = c13isect(r, iv.siblings(ex, b, via))
+		iv.depth--
+	}
+	return r
+}
+
+func (iv *c13ivals) atFlow(v ssa.Value, b, via *ssa.BasicBlock) iset {
 	fl := iv.flow(v)
 	if fl == nil {
 		return iv.base(v)
@@ -164,6 +176,100 @@ func (iv *c13ivals) at(v ssa.Value, b, via *ssa.BasicBlock) iset {
 		return r
 	}
 	return iv.base(v)
+}
+
+func c13isect(a, b iset) iset {
+	var out iset
+	for _, x := range b {
+		out = out.union(a.meet(x.lo, x.hi))
+	}
+	return out
+}
+
+// siblings: the values result ex of a multi-result repository helper can have, given what block b (or the edge
+// via -> b) knows about the OTHER results of the same call: only the returns whose other results can satisfy those
+// facts count (`code, err := parse(s); if err == nil { t.RedirectCode = code }` - the returns that hand back a nil error).
+func (iv *c13ivals) siblings(ex *ssa.Extract, b, via *ssa.BasicBlock) iset {
+	call, ok := ex.Tuple.(*ssa.Call)
+	if !ok || b == nil {
+		return top
+	}
+	sc := call.Call.StaticCallee()
+	if sc == nil || !isRepoFn(sc) || len(sc.Blocks) == 0 {
+		return top
+	}
+	var facts []Fact
+	if via != nil {
+		facts = c13edgeFacts(via, b)
+	} else {
+		facts = c13factsAt(b)
+	}
+	type want struct {
+		idx     int
+		verdict func(c13cls) int
+		truth   bool
+	}
+	var wants []want
+	sibling := func(v ssa.Value) (int, bool) {
+		e2, ok := v.(*ssa.Extract)
+		if ok && e2.Tuple == ex.Tuple && e2.Index != ex.Index {
+			return e2.Index, true
+		}
+		return 0, false
+	}
+	for _, f := range facts {
+		if idx, ok := sibling(f.Cond); ok {
+			wants = append(wants, want{idx, c13boolVerdict, f.Truth})
+			continue
+		}
+		bo, ok := f.Cond.(*ssa.BinOp)
+		if !ok || (bo.Op != token.EQL && bo.Op != token.NEQ) {
+			continue
+		}
+		for _, side := range [][2]ssa.Value{{bo.X, bo.Y}, {bo.Y, bo.X}} {
+			if k, isK := side[1].(*ssa.Const); isK {
+				if idx, ok := sibling(side[0]); ok {
+					wants = append(wants, want{idx, c13eqVerdict(k), (bo.Op == token.EQL) == f.Truth})
+				}
+			}
+		}
+	}
+	if len(wants) == 0 {
+		return top
+	}
+	var out iset
+	n := 0
+	eachInstr(sc, func(i ssa.Instruction) {
+		r, ok := i.(*ssa.Return)
+		if !ok || r.Parent() != sc || ex.Index >= len(r.Results) {
+			return
+		}
+		n++
+		for _, w := range wants {
+			if w.idx >= len(r.Results) {
+				continue
+			}
+			res := r.Results[w.idx]
+			var cls c13cls
+			if typeStr(res.Type()) == "bool" {
+				if k, isK := constBool(res); isK && k {
+					cls = c13cls{kind: 1}
+				} else if isK {
+					cls = c13cls{kind: 2}
+				}
+			} else {
+				cls = c13classify(res, c13factsAt(r.Block()))
+			}
+			if v := w.verdict(cls); v != 0 && (v > 0) != w.truth {
+				return // this return cannot be the one the call came back from
+			}
+		}
+		out = out.union(iv.at(r.Results[ex.Index], r.Block(), nil))
+	})
+	if n == 0 {
+		return top
+	}
+	return out
 }
 
 func (iv *c13ivals) flow(v ssa.Value) *c13vflow {
